@@ -6,6 +6,70 @@ Core Lean only.
 namespace Ens.Msm
 open Ens Ens.Counts
 
+/-! ### the stable sort -/
+
+theorem insertBy_perm {α : Type} (le : α → α → Bool) (a : α) (l : List α) :
+    (insertBy le a l).Perm (a :: l) := by
+  induction l with
+  | nil => exact List.Perm.refl _
+  | cons b l ih =>
+    simp only [insertBy]
+    split
+    · exact List.Perm.refl _
+    · exact (List.Perm.cons b ih).trans (List.Perm.swap a b l)
+
+theorem stableSort_perm {α : Type} (le : α → α → Bool) (l : List α) : (stableSort le l).Perm l := by
+  induction l with
+  | nil => exact List.Perm.refl _
+  | cons a l ih => exact (insertBy_perm le a _).trans (List.Perm.cons a ih)
+
+theorem insertBy_pairwise {α : Type} (le : α → α → Bool)
+    (trans : ∀ a b c, le a b = true → le b c = true → le a c = true)
+    (total : ∀ a b, le a b = true ∨ le b a = true) (a : α) (l : List α)
+    (h : l.Pairwise (fun x y => le x y = true)) :
+    (insertBy le a l).Pairwise (fun x y => le x y = true) := by
+  induction l with
+  | nil => simp [insertBy]
+  | cons b l ih =>
+    simp only [insertBy]
+    have hb := List.pairwise_cons.mp h
+    split
+    · rename_i hab
+      refine List.pairwise_cons.mpr ⟨?_, h⟩
+      intro x hx
+      rcases List.mem_cons.mp hx with e | hm
+      · rw [e]; exact hab
+      · exact trans _ _ _ hab (hb.1 x hm)
+    · rename_i hab
+      have hba : le b a = true := by
+        rcases total a b with h1 | h1
+        · exact absurd h1 hab
+        · exact h1
+      refine List.pairwise_cons.mpr ⟨?_, ih hb.2⟩
+      intro x hx
+      rcases List.mem_cons.mp ((insertBy_perm le a l).mem_iff.mp hx) with e | hm
+      · rw [e]; exact hba
+      · exact hb.1 x hm
+
+theorem stableSort_pairwise {α : Type} (le : α → α → Bool)
+    (trans : ∀ a b c, le a b = true → le b c = true → le a c = true)
+    (total : ∀ a b, le a b = true ∨ le b a = true) (l : List α) :
+    (stableSort le l).Pairwise (fun x y => le x y = true) := by
+  induction l with
+  | nil => exact List.Pairwise.nil
+  | cons a l ih => exact insertBy_pairwise le trans total a _ ih
+
+theorem stableSort_of_pairwise {α : Type} (le : α → α → Bool) (l : List α)
+    (h : l.Pairwise (fun x y => le x y = true)) : stableSort le l = l := by
+  induction l with
+  | nil => rfl
+  | cons a l ih =>
+    have ha := List.pairwise_cons.mp h
+    simp only [stableSort, ih ha.2]
+    cases l with
+    | nil => rfl
+    | cons b l' => simp only [insertBy, ha.1 b List.mem_cons_self, if_true]
+
 /-! ### fit = pipeline -/
 
 theorem fit_pipeline_callable {C T P : Type} (builders : String → Option (Builder C T P))
@@ -202,9 +266,9 @@ theorem zip_fst_snd (l : List (Int × Int)) : (l.map (·.1)).zip (l.map (·.2)) 
 theorem read_write (print : Int → String) (parse : String → Option Int)
     (hpp : ∀ i, parse (print i) = some i) (m : TrimMapping) (wf : m.WellFormed) :
     TrimMapping.read parse (m.write print) =
-      .ok { toOriginal := ((m.toOriginal.map swap).mergeSort (fun a b => decide (a.1 ≤ b.1))).map swap } := by
-  have hperm := List.mergeSort_perm (m.toOriginal.map swap) (fun a b => decide (a.1 ≤ b.1))
-  generalize hs : (m.toOriginal.map swap).mergeSort (fun a b => decide (a.1 ≤ b.1)) = sorted at hperm
+      .ok { toOriginal := (stableSort (fun a b => decide (a.1 ≤ b.1)) (m.toOriginal.map swap)).map swap } := by
+  have hperm := stableSort_perm (fun a b => decide (a.1 ≤ b.1)) (m.toOriginal.map swap)
+  generalize hs : stableSort (fun a b => decide (a.1 ≤ b.1)) (m.toOriginal.map swap) = sorted at hperm
   have hw : m.write print = csvHeader :: sorted.map (rowOf print) := by
     simp only [TrimMapping.write, toMapped_wf m wf, hs]; rfl
   rw [hw]
@@ -219,8 +283,8 @@ theorem read_write (print : Int → String) (parse : String → Option Int)
   exact wf.1
 
 theorem read_write_perm (m : TrimMapping) :
-    (((m.toOriginal.map swap).mergeSort (fun a b => decide (a.1 ≤ b.1))).map swap).Perm m.toOriginal := by
-  have := (List.mergeSort_perm (m.toOriginal.map swap) (fun a b => decide (a.1 ≤ b.1))).map swap
+    ((stableSort (fun a b => decide (a.1 ≤ b.1)) (m.toOriginal.map swap)).map swap).Perm m.toOriginal := by
+  have := (stableSort_perm (fun a b => decide (a.1 ≤ b.1)) (m.toOriginal.map swap)).map swap
   rwa [map_swap_swap] at this
 
 theorem roundtrip_beq (print : Int → String) (parse : String → Option Int)
@@ -229,7 +293,7 @@ theorem roundtrip_beq (print : Int → String) (parse : String → Option Int)
       m'.toOriginal.Perm m.toOriginal := by
   refine ⟨_, read_write print parse hpp m wf, ?_, read_write_perm m⟩
   have hp := read_write_perm m
-  generalize hd : ((m.toOriginal.map swap).mergeSort (fun a b => decide (a.1 ≤ b.1))).map swap = d' at hp
+  generalize hd : (stableSort (fun a b => decide (a.1 ≤ b.1)) (m.toOriginal.map swap)).map swap = d' at hp
   have wf' : TrimMapping.WellFormed ⟨d'⟩ :=
     ⟨((hp.map (·.1)).nodup_iff).mpr wf.1, ((hp.map (·.2)).nodup_iff).mpr wf.2⟩
   simp only [TrimMapping.beq, Bool.and_eq_true]
@@ -245,8 +309,8 @@ theorem roundtrip_sorted (print : Int → String) (parse : String → Option Int
     (hsorted : (m.toOriginal.map (·.2)).Pairwise (· ≤ ·)) :
     TrimMapping.read parse (m.write print) = .ok m := by
   rw [read_write print parse hpp m wf]
-  have : (m.toOriginal.map swap).mergeSort (fun a b => decide (a.1 ≤ b.1)) = m.toOriginal.map swap := by
-    apply List.mergeSort_of_pairwise
+  have : stableSort (fun a b => decide (a.1 ≤ b.1)) (m.toOriginal.map swap) = m.toOriginal.map swap := by
+    apply stableSort_of_pairwise
     rw [List.pairwise_map] at hsorted ⊢
     exact hsorted.imp (by intro a b h; simp only [swap]; exact decide_eq_true h)
   rw [this, map_swap_swap]
